@@ -10,7 +10,7 @@ SCHED_PATH = ("sched",)
 LEVEL = "exploration"
 QUICK_N = 320
 SCENARIO_TIMEOUT = 180
-PROBES = [p for p in pc.PROBES if p not in ['subsampled', 'cap_not_binding', 'multi_psm_spectra', 'scan_only_key', 'four_col_key', 'proba_only_learner']]
+PROBES = [p for p in pc.PROBES if p not in ['subsampled', 'cap_not_binding', 'multi_psm_spectra', 'scan_only_key', 'four_col_key', 'proba_only_learner', 'trained_models_reused_with_other_seed']]
 RULE = (
     "Same World-A executions as C02 (own seeds): brew under the seeded scheduler with a recording estimator. "
     "Oracle per (fold, collection): from the recorded raw outputs r of the prediction phase and the true target "
